@@ -75,6 +75,19 @@ fn dbg_field_inner<T: core::fmt::Debug>(v: &T, name: &str) -> u64 {
     rest[..end].parse().unwrap()
 }
 
+/// Drains an iterator of the crate while also exercising `size_hint()` before and after every `next()`
+/// (a public entry point that `collect()` and friends call): it must not panic either.
+pub struct Hinted<I>(pub I);
+impl<I: Iterator> Iterator for Hinted<I> {
+    type Item = I::Item;
+    fn next(&mut self) -> Option<I::Item> {
+        let _ = self.0.size_hint();
+        let r = self.0.next();
+        let _ = self.0.size_hint();
+        r
+    }
+}
+
 pub trait Show {
     fn show(&self, o: W) -> std::fmt::Result;
 }
